@@ -27,6 +27,9 @@ hist("C11", "Generated histories in which ~40% of the operations are made to rai
 CHECKS["C14"] = dict(category="exploration", technique="exhaustive enumeration of a finite fault battery (entry point x route x slot x wrong value x configuration) + Hypothesis-generated junk values; oracle: call raises ValueError/TypeError, contents unchanged, independent type predicate on everything read back",
     text="Every combination of entry point (Point construction, the four setters, insert/insert_multiple of non-Points, update/update_all static and via callable, database and Measurement-handle routes), slot, wrongly-typed value and {CSV, memory} x {auto_index on, off} is executed: the call must raise ValueError/TypeError, stored contents must be unchanged and every point read back must pass an independent type predicate; Hypothesis adds recursively generated junk judged by an independent validity predicate. The space of entry points and slots is finite, so enumeration is the right level.",
     note="The battery of wrong values is finite (about a dozen per slot) and in-place mutation of a Point's dicts is not an API path; falsy update arguments mean 'not given'.", design="3/C14")
+CHECKS["C05"] = dict(category="exploration", technique="Hypothesis round-trip property test over a wide adversarial value domain (codec route and real-file route under 8 csv dialects), cross-checked by an independent CSV decoder; confusable-pair injectivity",
+    text="Generated valid points (arbitrary Unicode mixed with reserved words/prefixes and CSV metacharacters, every float64 but NaN, unbounded ints, microsecond UTC times 1700-2240, both key-prefix styles) are serialized and read back through the codec and through real files (8 dialects, reopen with a fresh instance, optional rewrite in between); the result must be strictly equal (tags stay tags, fields stay fields, identical IEEE bits for floats) and an independent decoder must read the same file the same way; confusable pairs must serialize to different rows. Three format-level defects are known findings and excluded by construction.",
+    note="Trusts Python's csv module (rows it cannot round-trip itself under a dialect are discarded and counted) and the independent decoder csvref; NaN excluded.", design="3/C05")
 NA = {}
 checks = []
 for p in props:
